@@ -17,7 +17,7 @@ inductive St where
   | kin (k : KSt)
   | cut (r : RSt)
   | ecut
-  | job (j : JSt)
+  | job (j : JSt) (deployed : Bool)
   | misc
 
 def splitOnC (s : String) (c : String) : List String :=
@@ -165,7 +165,9 @@ def showStart (r : JSt × Option JObs) : JSt × String :=
   | some (d, c) => (r.1, s!"dep {showOptNat d} | only@{showOptNat c} ; ok")   -- `ok`: C16.job_resumes_restored_cut
   | none => (r.1, "bad")
 
-def stepJob (j : JSt) : List String → JSt × String
+def stepJob (j : JSt) (deployed : Bool) (ws : List String) : JSt × String :=
+  if !deployed && ws != ["deploy"] then (j, "not-deployed") else
+  match ws with
   | ["deploy"] => showStart (jstep j (.start false))
   | ["fail"] => showStart (jstep j (.start false))
   | ["fail", "race"] => showStart (jstep j (.start true))
@@ -181,7 +183,7 @@ def step (st : St) (ws : List String) : St × String :=
   | .ecut => (.ecut, match ws with   -- free-running real reader: every op evaluates C16.cursor_matches_cut, spec `ok`
       | ["assign", _] | ["pause", _] | ["barrier", _] => "ok"
       | _ => "bad-op")
-  | .job j => let (j', o) := stepJob j ws; (.job j', o)
+  | .job j d => let (j', o) := stepJob j d ws; (.job j' (d || ws == ["deploy"]), o)
   | .misc => (.misc, stepMisc ws)
 
 def initSt (header : String) : St :=
@@ -191,7 +193,7 @@ def initSt (header : String) : St :=
     .kin { impl := s, spec := s }
   | "M" :: "C16" :: "cut" :: _ => .cut {}
   | "M" :: "C16" :: "ecut" :: _ => .ecut
-  | "M" :: "C16" :: "job" :: _ => .job {}
+  | "M" :: "C16" :: "job" :: _ => .job {} false
   | _ => .misc
 
 def handle (lines : Array String) (i : Nat) (out : Array String) : Nat × Array String :=
